@@ -1,6 +1,7 @@
 import Lean.Data.Json
 import EudoxiaModel.Model.Obs
 import EudoxiaModel.Model.Csv
+import EudoxiaModel.Model.SObs
 /-! JSON → observation records (the shape produced by the harness and by the driver itself). -/
 open Lean Eudoxia
 
@@ -81,6 +82,53 @@ def etrace (j : Json) : Except String ETrace := do
            ops := { pid := ← natList (← field o "pid"), parents := ← (← arr (← field o "parents")).mapM natList },
            init := ← world (← field j "init"),
            steps := ← (← arr (← field j "steps")).mapM stepObs }
+
+def job (j : Json) : Except String JobObs := do
+  let l ← arr j
+  let r ← nth l 2
+  let retry ← (if r.isNull then pure none else do
+    let x ← arr r
+    return some (← nat (← nth x 0), ← nat (← nth x 1), (← nat (← nth x 2)) != 0, (← int (← nth x 3)).toNat))
+  return { ops := ← natList (← nth l 0), prio := ← nat (← nth l 1), retry := retry }
+
+def optField (j : Json) (k : String) : Option Json := (j.getObjVal? k).toOption
+
+def qobs (j : Json) : Except String QObs := do
+  if j.isNull then return {}
+  let lst (k : String) : Except String (List Nat) := match optField j k with
+    | some v => do (← arr v).mapM (fun x => do return (← int x).toNat)
+    | none => pure []
+  let jobs (k : String) : Except String (List JobObs) := match optField j k with | some v => do (← arr v).mapM job | none => pure []
+  let fails ← (match optField j "fails" with
+    | some v => do (← arr v).mapM (fun x => do let l ← arr x; return (← nat (← nth l 0), ← nat (← nth l 1)))
+    | none => pure [])
+  return { queue := ← lst "queue", opq := ← lst "opq", fails := fails, qry := ← jobs "qry", inter := ← jobs "inter",
+           batch := ← jobs "batch", susp := ← lst "susp" }
+
+def asgOf (j : Json) : Except String Asg := do
+  let l ← arr j
+  return { pool := ← nat (← nth l 0), cpu := ← nat (← nth l 1), ram := ← nat (← nth l 2), prio := ← nat (← nth l 3), ops := ← natList (← nth l 4) }
+
+def sround (j : Json) : Except String SRound := do
+  let dec := optField j "dec"
+  let sus ← (match dec with
+    | some d => do (← arr (← field d "sus")).mapM (fun x => do let l ← arr x; return (← nat (← nth l 0), (← int (← nth l 1)).toNat))
+    | none => pure [])
+  let asgs ← (match dec with | some d => do (← arr (← field d "asgs")).mapM asgOf | none => pure [])
+  let after ← (match optField j "afterSched" with | some a => states a | none => (match optField j "st" with | some a => states a | none => pure []))
+  let q ← (match optField j "sched" with | some a => qobs a | none => pure {})
+  let st := optField j "state"
+  let post ← (match st with | some w => (if w.isNull then pure none else do return some (← world w)) | none => pure none)
+  let res ← (match optField j "res" with | some r => do (← arr r).mapM res | none => pure [])
+  return { newP := ← natList (← field j "newP"), sus := sus, asgs := asgs, afterSched := after, q := q,
+           err := (optField j "err").bind optStr, phase := ((optField j "phase").bind optStr).getD "", post := post, res := res }
+
+def strace (j : Json) : Except String STrace := do
+  let o ← field j "ops"
+  return { cfg := ← cfg (← field j "cfg"), algo := ← (← field j "algo").getStr?,
+           ops := { pid := ← natList (← field o "pid"), parents := ← (← arr (← field o "parents")).mapM natList },
+           prios := ← natList (← field j "prios"), init := ← world (← field j "init"),
+           rounds := ← (← arr (← field j "rounds")).mapM sround }
 
 def optV (j : Json) : Option String := match j with | .str s => some s | _ => none
 
